@@ -308,7 +308,7 @@ def run_gaussian(ctx, cuqi, thorough):
     kinds_full = ["lower", "upper", "full", "lowerbi", "upperbi"]
     for k in range(ncase):
         r = rs.rand()
-        if r < 0.08:
+        if r < 0.05:
             n = int(rs.choice([74, 75, 76, 77, 80]))          # across the dense/sparse switch (MIN_DIM_SPARSE = 75)
         elif r < 0.2:
             n = 1
@@ -397,6 +397,9 @@ def run_gaussian(ctx, cuqi, thorough):
         else:
             lines.append("noop")
         cols = np.hstack([np.zeros((n, 1)), np.eye(n)]).T
+        colsel = list(range(n + 1)) if n <= 20 else [0, 1, n // 2, n]   # model evaluated on these columns of the same call
+        meta["colsel"] = colsel
+        cols = cols[colsel]
         meta["leaf_R"] = val is None and form != "sqrtprec"
         meta["cert_only"] = meta["leaf_R"] and n > 20     # float-valued dense 76x76 factor: exact elimination too slow
         if meta["cert_only"]:
@@ -443,11 +446,12 @@ def run_gaussian(ctx, cuqi, thorough):
         solver_hist[solver] = solver_hist.get(solver, 0) + 1
         Sm = np.array([[float(x) for x in row] for row in pm(S)]).T      # (n, n+1)
         Si = values(m["s"])
+        Sm_full = Sm
         calls_ok = len(m["calls"]) == 1 and m["calls"][0][0] == "randn" and m["calls"][0][2] == (n, n + 1)
         if not calls_ok:
             ctx.disagree(key, desc, f"one call randn({n},{n + 1})", str(m["calls"])[:200], "generator calls")
             bad = True
-        if Si.shape != Sm.shape or not mclose(Si.tolist(), Sm.tolist(), 1e-9):
+        if Si.shape != (n, n + 1) or not mclose(Si[:, m["colsel"]].tolist(), Sm.tolist(), 1e-9):
             ctx.disagree(key, desc, Sm.tolist() if n <= 8 else "…", Si.tolist() if n <= 8 else "…", "draws for xi = 0, e_1..e_n")
             bad = True
         # oracle on the implementation alone
